@@ -176,3 +176,62 @@ pub fn quote_liquidity(bank: &Bank, pool: &Pubkey, mint_a: &Pubkey, mint_b: &Pub
         Err(_) => json!({"present": true, "ok": false, "estA": 0, "estB": 0, "boundA": 0, "boundB": 0, "bps": slippage_bps, "err": "panic"}),
     }
 }
+
+fn position_facade(bank: &Bank, key: &Pubkey) -> Option<(Pubkey, core_sdk::PositionFacade)> {
+    let a = bank.accts.get(key)?;
+    if a.owner != whirlpool::ID || a.data.len() < 216 || &a.data[..8] != whirlpool::state::Position::DISCRIMINATOR {
+        return None;
+    }
+    let mut r = project::Rd::new(&a.data, 8);
+    let pool = r.key();
+    let _mint = r.key();
+    let liquidity = r.u128();
+    let (lo, up) = (r.i32(), r.i32());
+    let cpa = r.u128();
+    let oa = r.u64();
+    let cpb = r.u128();
+    let ob = r.u64();
+    let mut ri = [core_sdk::PositionRewardInfoFacade::default(); 3];
+    for x in ri.iter_mut() {
+        x.growth_inside_checkpoint = r.u128();
+        x.amount_owed = r.u64();
+    }
+    Some((pool, core_sdk::PositionFacade { liquidity, tick_lower_index: lo, tick_upper_index: up, fee_growth_checkpoint_a: cpa, fee_owed_a: oa, fee_growth_checkpoint_b: cpb, fee_owed_b: ob, reward_infos: ri }))
+}
+
+/// The SDK's `collect_fees_quote` / `collect_rewards_quote` (no transfer fees: the amounts the position is owed) for a position on
+/// the pre-state of an `update_fees_and_rewards`, to be compared with what the program then records as owed.
+pub fn quote_owed(bank: &Bank, position: &Pubkey, ta_lower: &Pubkey, ta_upper: &Pubkey, now: u64) -> Value {
+    let Some((pool, pos)) = position_facade(bank, position) else { return json!({"present": false}) };
+    if !bank.accts.contains_key(&pool) {
+        return json!({"present": false});
+    }
+    let wp = whirlpool_facade(bank, &pool);
+    let tick_of = |ta: &Pubkey, t: i32| -> Option<core_sdk::TickFacade> {
+        let a = bank.accts.get(ta)?;
+        if a.owner != whirlpool::ID || a.data.len() < 8 {
+            return None;
+        }
+        let f = tick_array_facade(bank, ta, 0)?;
+        let off = (t - f.start_tick_index).div_euclid(wp.tick_spacing as i32);
+        if !(0..88).contains(&off) || (t - f.start_tick_index).rem_euclid(wp.tick_spacing as i32) != 0 {
+            return None;
+        }
+        Some(f.ticks[off as usize])
+    };
+    let (Some(tl), Some(tu)) = (tick_of(ta_lower, pos.tick_lower_index), tick_of(ta_upper, pos.tick_upper_index)) else { return json!({"present": false}) };
+    let fees = std::panic::catch_unwind(std::panic::AssertUnwindSafe(|| core_sdk::collect_fees_quote(wp, pos, tl, tu, None, None)));
+    let rewards = std::panic::catch_unwind(std::panic::AssertUnwindSafe(|| core_sdk::collect_rewards_quote(wp, pos, tl, tu, now, None, None, None)));
+    let (fee_ok, fa, fb, fee_err) = match fees {
+        Ok(Ok(q)) => (true, q.fee_owed_a, q.fee_owed_b, String::new()),
+        Ok(Err(e)) => (false, 0, 0, e.to_string()),
+        Err(_) => (false, 0, 0, "panic".to_string()),
+    };
+    let (rw_ok, rw, rw_err) = match rewards {
+        Ok(Ok(q)) => (true, [q.rewards[0].rewards_owed, q.rewards[1].rewards_owed, q.rewards[2].rewards_owed], String::new()),
+        Ok(Err(e)) => (false, [0; 3], e.to_string()),
+        Err(_) => (false, [0; 3], "panic".to_string()),
+    };
+    json!({"present": true, "feeOk": fee_ok, "feeA": nu(fa as u128), "feeB": nu(fb as u128), "feeErr": fee_err,
+           "rwOk": rw_ok, "rw": [nu(rw[0] as u128), nu(rw[1] as u128), nu(rw[2] as u128)], "rwErr": rw_err})
+}
